@@ -41,6 +41,12 @@
 (* or threshold that is secretly absolute (a column of tiny absolute scale *)
 (* treated as constant, a cut-off against machine epsilon) is exposed.     *)
 (*                                                                         *)
+(* ENTRY POINTS.  Field entry = "inherent" (PCA::fit, transform) or "api"  *)
+(* (api::UnsupervisedEstimator::fit, api::Transformer::transform, fully    *)
+(* qualified); same contract.  SIZE LADDER: data sets with 63..1025 rows   *)
+(* of three-valued entries (fam "ladder<m>") run through the same clauses  *)
+(* at whatever scale the 32-bit range guard admits.                        *)
+(*                                                                         *)
 (* All verdicts come from the operators of Pca.tla.                        *)
 (***************************************************************************)
 EXTENDS Pca, TLC, Json, IOUtils
@@ -52,9 +58,8 @@ vars == <<l, nbad, hits>>
 
 VarsN2(X) == [j \in 1..PcNCols(X) |-> PcVarN2(X, j)]
 \* query rows centred with the training column sums: m z_ij - s_j
-CentredQuery(X, Z) ==
-    LET m == Len(X) s == [j \in 1..PcNCols(X) |-> PcColSum(X, j)] IN
-    [i \in 1..Len(Z) |-> [j \in 1..PcNCols(X) |-> m * Z[i][j] - s[j]]]
+CentredQueryWith(X, Z, s) == [i \in 1..Len(Z) |-> [j \in 1..PcNCols(X) |-> Len(X) * Z[i][j] - s[j]]]
+CentredQuery(X, Z) == CentredQueryWith(X, Z, PcColSums(X))
 
 \* ------------------------------------------------------------ Pca
 PcaShapes(e, o) ==
@@ -149,7 +154,11 @@ HitNames == {"Pca_cov_svd_k", "Pca_cov_svd_full", "Pca_cov_evd_k", "Pca_cov_evd_
              "Tsvd", "TsvdReject", "OutOfRange", "Unconstrained",
              \* second counter: membership of the offset / column-scale family, by code path
              "Offset_cov_svd", "Offset_cov_evd", "Offset_corr",
-             "Scaled_cov_svd", "Scaled_cov_evd", "Scaled_corr_tall", "Scaled_corr_wide", "Plain"}
+             "Scaled_cov_svd", "Scaled_cov_evd", "Scaled_corr_tall", "Scaled_corr_wide", "Plain",
+             "Entry_api", "Entry_inherent", "Rows_upto_40", "Rows_63_257", "Rows_1023_1025", "Rows_other"}
+RowsHit(e) == LET m == Len(e.X) IN
+              IF m <= 40 THEN "Rows_upto_40" ELSE IF m >= 63 /\ m <= 257 THEN "Rows_63_257"
+              ELSE IF m >= 1023 /\ m <= 1025 THEN "Rows_1023_1025" ELSE "Rows_other"
 PcAllZero(v) == \A j \in 1..Len(v) : v[j] = 0
 OffsetHit(e) ==
     IF e.ev # "Pca" \/ (PcAllZero(e.off) /\ PcAllZero(e.cexp)) THEN "Plain"
@@ -161,7 +170,8 @@ OffsetHit(e) ==
 Judge(e, c) ==
     /\ IF c \in {"", "OutOfRange", "Unconstrained"} THEN nbad' = nbad
        ELSE PrintT(<<"BAD", l, e.run, e.ev, c>>) /\ nbad' = nbad + 1
-    /\ hits' = [hits EXCEPT ![HitOf(e, c)] = @ + 1, ![OffsetHit(e)] = @ + 1]
+    /\ hits' = [hits EXCEPT ![HitOf(e, c)] = @ + 1, ![OffsetHit(e)] = @ + 1,
+                            !["Entry_" \o e.entry] = @ + 1, ![RowsHit(e)] = @ + 1]
 
 Step == /\ l <= Len(Rec)
         /\ Judge(Rec[l], Clause(Rec[l]))
